@@ -17,31 +17,31 @@ theorem max32_val : (((1 : UInt64) <<< 32) - 1) = 4294967295 := by decide
 theorem uaddCarryV_res_eq (x y : UInt32) : uaddCarryV_res x y = uaddCarry_res x y := rfl
 theorem uaddCarryV_carry_eq (x y : UInt32) : uaddCarryV_carry x y = uaddCarry_carry x y := by
   simp only [uaddCarryV_carry, uaddCarry_carry]
-  bv_decide
+  bv_decide (config := { timeout := 180 })
 theorem usubBorrowV_borrow_eq (x y : UInt32) : usubBorrowV_borrow x y = usubBorrow_borrow x y := by
   simp only [usubBorrowV_borrow, usubBorrow_borrow]
-  bv_decide
+  bv_decide (config := { timeout := 180 })
 theorem usubBorrowV_res_eq (x y : UInt32) : usubBorrowV_res x y = usubBorrow_res x y := by
   simp only [usubBorrowV_res, usubBorrow_res]
-  bv_decide
+  bv_decide (config := { timeout := 180 })
 theorem umulExtendedV_msb_eq (x y : UInt32) : umulExtendedV_msb x y = umulExtended_msb x y := rfl
 theorem umulExtendedV_lsb_eq (x y : UInt32) : umulExtendedV_lsb x y = umulExtended_lsb x y := rfl
 /-- the vector form masks with 0xFFFFFFFF before narrowing to int: same low 32 bits -/
 theorem imulExtendedV_msb_eq (x y : Int32) : imulExtendedV_msb x y = imulExtended_msb x y := by
   simp only [imulExtendedV_msb, imulExtended_msb]
-  bv_decide
+  bv_decide (config := { timeout := 180 })
 theorem imulExtendedV_lsb_eq (x y : Int32) : imulExtendedV_lsb x y = imulExtended_lsb x y := by
   simp only [imulExtendedV_lsb, imulExtended_lsb]
-  bv_decide
+  bv_decide (config := { timeout := 180 })
 
 /-! ### uaddCarry -/
 /-- closed bit-vector form of the two outputs (SAT-checked), from which the ℕ statements follow -/
 theorem uaddCarry_res_bv (x y : UInt32) : uaddCarry_res x y = x + y := by
   simp only [uaddCarry_res]
-  bv_decide
+  bv_decide (config := { timeout := 180 })
 theorem uaddCarry_carry_bv (x y : UInt32) : uaddCarry_carry x y = if x + y < x then 1 else 0 := by
   simp only [uaddCarry_carry]
-  bv_decide
+  bv_decide (config := { timeout := 180 })
 
 /-- "returning the sum modulo pow(2, 32)" -/
 theorem uaddCarry_res_ok (x y : UInt32) : (uaddCarry_res x y).toNat = Spec.uaddSum x.toNat y.toNat := by
@@ -63,7 +63,7 @@ theorem usubBorrow_borrow_ok (x y : UInt32) : (usubBorrow_borrow x y).toNat = Sp
 /-- what the code computes: y − x (mod 2^32), for every x, y -/
 theorem usubBorrow_res_bv (x y : UInt32) : usubBorrow_res x y = y - x := by
   simp only [usubBorrow_res]
-  bv_decide
+  bv_decide (config := { timeout := 180 })
 
 /-- … i.e. the specified difference with the operands exchanged -/
 theorem usubBorrow_res_swapped (x y : UInt32) : (usubBorrow_res x y).toNat = Spec.usubDiff y.toNat x.toNat := by
@@ -96,8 +96,8 @@ theorem usubBorrow_res_partial (x y : UInt32) :
 /-- the same class as a bit condition (this is the predicate `usub_wrong` of checks/c05.py, negated) -/
 theorem usubBorrow_class (x y : UInt32) : (x - y = y - x) ↔ ((x - y) <<< 1 = 0) := by
   constructor
-  · intro h; bv_decide
-  · intro h; bv_decide
+  · intro h; bv_decide (config := { timeout := 180 })
+  · intro h; bv_decide (config := { timeout := 180 })
 
 /-! ### umulExtended -/
 theorem umul_lt (x y : UInt32) : x.toNat * y.toNat < 2^64 := by
